@@ -26,9 +26,7 @@ def run(tier):
         k += profiles.fast_invocation(prog, rep, prof)
     rep.floor("static-form methods checked", k, 12)
     # the Nickname operations are built on stabilize: its contract (C13) is a premise of this property
-    from . import C13
-
-    rep.include(C13.run(tier), "C13")
+    profiles.include_leaves(rep, [("C13", "stabilize contract"), ("C12", "space rules"), ("C10", "case mapping"), ("C11", "width mapping"), ("C09", "directionality rule"), ("C14", "derived property behind the string classes"), ("C02", "string class acceptance")])
     rep.extra["exhaustive"] = True
     rep.assumptions += ["Cow<str> == is content equality (std)", "enforce is a function of its argument (C16)"]
     return rep
